@@ -95,9 +95,9 @@ var muxerSharedTypes = []string{"Muxer", "muxerStream", "muxerSegmentFMP4", "mux
 	"fileDisk", "fileRAM", "partDisk", "partRAM", "H264", "H265", "AV1", "VP9", "MPEG4Audio", "Opus"}
 
 var specs = []spec{
-	{ID: "C09", Pkg: ".", Level: "model_checking", Instrument: true, Procs: 1,
+	{ID: "C09", Pkg: ".", Level: "model_checking", Instrument: true, Procs: 1, ThorBudget: 45 * time.Minute,
 		AtomicRanges: []string{"clientStreamProcessorMPEGTS.joinTrackProcessors"},
-		Rule:         "end-to-end runs in one synctest bubble under the controlled scheduler: a writer thread paces a 9 s word (regular GOPs; a parameter change and an extra key frame; sparse key frames) on the virtual clock into a real Muxer, a real Client attached at 2.6 / 4.3 / 5.9 s reads it through an in-process transport that serves every request in its own thread; 12 muxer configurations (MPEG-TS, fMP4, Low-Latency x H264/H265/VP9/AV1/AAC/Opus, audio-before-video with named / default renditions, audio-only) x entry point {multivariant, leading media playlist} x three canonical schedules, every schedule within 0 (quick) / 1 (thorough) deviations; distinct = distinct (scenario, tracks, delivered units, end)",
+		Rule:         "end-to-end runs in one synctest bubble under the controlled scheduler: a writer thread paces a 14 s word (regular GOPs; a parameter change and an extra key frame; sparse key frames; H264 with reordered frames; Opus writes of three packets of different durations) on the virtual clock into a real Muxer, a real Client attached at 2.6 / 4.3 / 5.9 s reads it through an in-process transport that serves every request in its own thread; 16 muxer configurations (MPEG-TS, fMP4, Low-Latency x H264/H264 with reordering/H265/VP9/AV1/AAC/Opus, audio-before-video with named / default renditions, audio-only) x entry point {multivariant, leading media playlist} x three canonical schedules (quick: plus every schedule one deviation away from the run-until-blocked schedule for two configurations; thorough: for every configuration and word on the multivariant entry point, two attach times); distinct = distinct (scenario, tracks, delivered units, end)",
 		Assumptions:  schedAssumptions},
 	{ID: "C12", Pkg: ".", Level: "model_checking", Instrument: true, Procs: 1,
 		AtomicRanges: []string{"clientStreamProcessorMPEGTS.joinTrackProcessors"},
